@@ -53,7 +53,7 @@ def run_config(chk, tier, cfgname):
         t0 = prog.ty(ins[0]["ty"])
         if t0.get("k") == "adt" and t0["def"] in BUILDER_ADTS:
             completing.append(f)
-    chk.floor("builder-consuming-methods", len(completing), 18)
+    chk.floor("builder-consuming-methods", len(completing), 9)
     for f in completing:
         n = f["n"]
         out_s = f["output"]["s"]
